@@ -14,7 +14,9 @@ var opTokens = []string{"&", "!", "~", "^", ";", "?", "@", "#", ":", "]", ".", "
 var quoteTokens = []string{"'", "\"", "''", "\"\"", "'a'", "\"b\"", "'$T.x'", "\"&T.*\"", "'it''s'", "'(*) VALUES ($T.*)'", "'\\'", "\"\\\"", "'x\\'", "\\", "\\'"}
 var commentTokens = []string{"--", "/*", "*/", "-- c\n", "/* $T.x */", "/**/", "/* ' */", "-- '\n", "/* (*) VALUES ($T.*) */", "-", "/", "*"}
 var kwTokens = []string{"AS", "as", "As", "VALUES", "values", "Values", "VALUEſ", "aſ", "AS&", "ASX", "SELECT", "FROM", "WHERE", "INSERT INTO t", "IN", "AND"}
-var nonASCII = []string{"é", "日本", "\xff", "\xc3", "\xe2\x82", "ſ", "K", " ", " ", "٣", "\xf0\x9f\x98\x80", "\xed\xa0\x80", "\xc0\xaf"}
+var nonASCII = []string{"é", "日本", "\xff", "\xc3", "\xe2\x82", "ſ", "K", " ", " ", "٣", "\xf0\x9f\x98\x80", "\xed\xa0\x80", "\xc0\xaf",
+	// characters that editors or other tools treat as line breaks or as invisible: only byte 10 ends a line
+	"\ufeff", "\u2028", "\u2029", "\u0085", "\v", "\f", "\r", "\u200b", "\u00a0"}
 
 type parseGen struct {
 	r    *rng
@@ -271,6 +273,15 @@ func (g *parseGen) next() string {
 		default:
 			s = g.mutate(g.statement())
 		}
+	}
+	// a byte order mark or another invisible character in front (a query read from a file)
+	if r.chance(1, 20) {
+		s = r.pick([]string{"\ufeff", "\ufeff", "\u2028", "\u200b", "\ufeff\n", "\r"}) + s
+	}
+	// separators that are not line breaks inside the text
+	if r.chance(1, 20) && len(s) > 0 {
+		p := r.intn(len(s) + 1)
+		s = s[:p] + r.pick([]string{"\u2028", "\u2029", "\u0085", "\v", "\f", "\r"}) + s[p:]
 	}
 	return s
 }
